@@ -51,7 +51,7 @@ man = {
     "engines": [{"name": "rapid-harness", "path": "/verif/harness", "serves_properties": [c["property_id"] for c in checks],
                  "kind_free_text": "Go module: pgregory.net/rapid v1.3.0 generators + reference models + siglens run in a child worker process; driver /verif/check shards, confirms failures from replay files and writes evidence"}],
     "checks": checks,
-    "notes": "All checks rebuild the harness against /repo's working tree on every invocation. Exit 2 = inconclusive (never a violation).",
+    "notes": "All checks rebuild the harness against /repo's working tree on every invocation. Exit 2 = inconclusive (build failure, a shard without verdict, fewer than half of the requested cases decided; never a violation). A failure that does not come back when its replay file is re-executed counts as a violation only if its message carries a crash trace or a race report of the server process; otherwise it is logged as UNCONFIRMED and listed in the evidence file (unconfirmed_failures). Open findings of known_findings.jsonl are printed as KNOWN-FINDING lines.",
     "not_applicable": na,
 }
 json.dump(man, open(os.path.join(ROOT, "MANIFEST.json"), "w"), indent=1)
